@@ -13,6 +13,8 @@ import (
 	"golang.org/x/tools/go/ssa"
 )
 
+var repoRoot string
+
 type unsupportedErr struct{ msg string }
 
 func unsupported(msg string) unsupportedErr { return unsupportedErr{msg} }
@@ -80,7 +82,9 @@ func (ex *Exec) curPos() string {
 		if f.pos.IsValid() {
 			p := ex.prog.Fset.Position(f.pos)
 			fn := p.Filename
-			if j := strings.Index(fn, "/repo/"); j >= 0 {
+			if repoRoot != "" && strings.HasPrefix(fn, repoRoot+"/") {
+				fn = fn[len(repoRoot)+1:]
+			} else if j := strings.Index(fn, "/repo/"); j >= 0 {
 				fn = fn[j+6:]
 			}
 			return fmt.Sprintf("%s:%d", fn, p.Line)
